@@ -749,7 +749,8 @@ class Opaque(Type):
         # actual type or a row variable.
         args = [cast(model.Term, arg.to_model()) for arg in self.args]
 
-        return model.Apply(self.id, args)
+        # same qualified name as the `ExtType` this type resolves to
+        return model.Apply(f"{self.extension}.{self.id}", args)
 
 
 @dataclass
